@@ -57,6 +57,7 @@ pub fn base_plan(profile: &str, seed: u64, g: Geometry) -> Plan {
         sched_yield_pm: *r.pick(&[0u32, 0, 0, 0, 30, 150, 400]),
         disk_fail_writes: vec![],
         disk_fail_reads: vec![],
+        disk_full_from: None,
         preexisting: vec![],
         tracker: TrackerPlan { steps: vec![] },
         peers: vec![],
@@ -475,6 +476,14 @@ pub fn honest_swarm(seed: u64) -> Plan {
             peer.script.push(step(When::At(r.range(3_000, 45_000)), Act::Gain(*i as u32)));
         }
     }
+    // network partitions that heal (any peer; an honest peer cannot help them)
+    for peer in p.peers.iter_mut() {
+        if r.chance(1, 8) {
+            for _ in 0..r.range(1, 2) {
+                peer.script.push(step(When::At(r.range(0, 120_000)), Act::Partition(r.range(500, 90_000))));
+            }
+        }
+    }
     // tracker lists the peers in a seeded order
     let mut names: Vec<String> = p.peers.iter().filter(|x| x.listed).map(|x| x.name.clone()).collect();
     r.shuffle(&mut names);
@@ -879,6 +888,10 @@ pub fn adversary_mix(seed: u64) -> Plan {
             p.disk_fail_writes.push(r.below(n as u64 + 2));
         }
     }
+    // the disk fills up after a few pieces
+    if r.chance(1, 12) {
+        p.disk_full_from = Some(r.below(n as u64 + 1));
+    }
     // restart after a crash: piece files of an earlier run are still lying around
     if r.chance(1, 5) {
         for _ in 0..r.range(1, 4) {
@@ -897,7 +910,7 @@ pub fn adversary_mix(seed: u64) -> Plan {
     r.shuffle(&mut names);
     p.tracker.steps.push((r.range(1, 50), TrackerStep::Good { peers: names, malformed: 0, wrong_id_for: vec![] }));
     p.fs_yield_pm = *r.pick(&[0u32, 100, 500]);
-    p.deadline_ms = 1_200_000;
+    p.deadline_ms = if p.disk_full_from.is_some() { 40_000 } else { 1_200_000 };
     p.linger_ms = 500;
     p
 }
@@ -1207,6 +1220,9 @@ pub fn announce(seed: u64) -> Plan {
         }
         if r.chance(1, 2) {
             peer.script.push(step(When::At(r.range(1, 3000)), Act::Send(Msg::Interested)));
+        }
+        if r.chance(1, 6) {
+            peer.script.push(step(When::At(r.range(0, 3000)), Act::Partition(r.range(100, 2500))));
         }
         p.peers.push(peer);
         k += 1;
@@ -1675,6 +1691,11 @@ pub fn keepalive(seed: u64) -> Plan {
                     peer.keepalive = Some(r.range(1000, 119_000));
                 }
             }
+        }
+        // partitions: shorter than an interval, or longer than the whole inactivity limit
+        if r.chance(1, 5) {
+            let d = if r.chance(1, 2) { r.range(1_000, 100_000) } else { r.range(365_000, 500_000) };
+            peer.script.push(step(When::At(r.range(0, 400_000)), Act::Partition(d)));
         }
         p.peers.push(peer);
     }
